@@ -69,6 +69,7 @@ class Src:
         self.class_by_name = {}  # name -> [ClassInfo]
         self.funcs = {}     # (rel, qual) -> FuncInfo
         self.imports = {}   # rel -> {local name: (module rel or dotted, attr or None)}
+        self.nf_substituted = []  # functions equal to the reference function up to the respellings of normalform.py: the reference function is analysed in their place
         self.alpha_renamed = []   # functions whose locals were renamed back to the reference names (pure local renamings undone)
         try:
             from . import alpha
@@ -97,7 +98,8 @@ class Src:
                 except (SyntaxError, UnicodeDecodeError) as e:
                     raise AnalysisError(f"cannot parse {rel}: {e}")
                 if self._alpha_db:
-                    from . import alpha
+                    from . import alpha, normalform
+                    normalform.substitute_reference(rel, mod, self._alpha_db, self.nf_substituted)
                     alpha.normalise_module(rel, mod, self._alpha_db, self.alpha_renamed)
                 if self.INLINE_TEMPS:
                     for fn_ in [n for n in ast.walk(mod) if isinstance(n, (ast.FunctionDef, ast.AsyncFunctionDef))]:
